@@ -205,6 +205,11 @@ pub struct KState {
     coin_seed: u64,
 }
 
+/// Wall-clock patience of the watchdog and of teardown. Generous on purpose: on a machine that is
+/// busy with other jobs a descheduled task thread can go without the CPU for a long time, and a
+/// premature "stalled" would be a harness error on code that is fine.
+const STALL_SECS: u64 = 120;
+
 pub struct Kernel {
     m: Mutex<KState>,
     main_cv: Condvar,
@@ -413,11 +418,11 @@ impl Kernel {
             if st.steps != last_steps {
                 last_steps = st.steps;
                 last_progress = std::time::Instant::now();
-            } else if last_progress.elapsed() > Duration::from_secs(20) {
+            } else if last_progress.elapsed() > Duration::from_secs(STALL_SECS) {
                 stalled = true;
                 st.error = Some(format!(
-                    "run stalled for 20 s of wall clock at step {} (task {:?} holds the baton without reaching a scheduling point: a blocking primitive outside the shims, or an endless loop)",
-                    st.steps, st.current
+                    "run stalled for {} s of wall clock at step {} (task {:?} holds the baton without reaching a scheduling point: a blocking primitive outside the shims, or an endless loop)",
+                    STALL_SECS, st.steps, st.current
                 ));
                 st.current = None;
                 st.done = true;
@@ -443,7 +448,7 @@ impl Kernel {
         for t in st.tasks.iter() {
             t.cv.notify_all();
         }
-        let deadline = std::time::Instant::now() + Duration::from_secs(20);
+        let deadline = std::time::Instant::now() + Duration::from_secs(STALL_SECS);
         while st.live_os > 0 {
             let left = deadline.saturating_duration_since(std::time::Instant::now());
             if left.is_zero() {
